@@ -8,6 +8,8 @@ PROP = dict(
                  env=dict(quick=dict(VERIF_CASES=1500), thorough=dict(VERIF_CASES=15000))),
             dict(name="accrual-sites", go_test="TestC18Sites", runner="C18-sites",
                  env=dict(quick=dict(VERIF_CASES=500), thorough=dict(VERIF_CASES=5000))),
+            dict(name="accrual-pair-fee", go_test="TestC18Pair", runner="C18-pair",
+                 env=dict(quick=dict(VERIF_CASES=300), thorough=dict(VERIF_CASES=6000))),
         ],
         rule="case = a group of 1-3 calls of one REAL function on neighbouring / consecutive inputs: CalculateLendReward, CalculateBorrowInterest, "
              "CalculateStableInterest, Rewardskeeper.CalculationOfRewards (float path; x, y, math.Pow(x,y) recorded as IEEE bit patterns), or (kind R) one set of "
@@ -21,14 +23,24 @@ PROP = dict(
              "rewards.CalculateVaultInterest, asset.VaultIterateRewards, rewards.CalculateLockerRewards, lend.IterateLends, lend.IterateBorrow (variable and stable-rate, with "
              "GetAverageBorrowRate / GetReserveRate / GetBorrowAPRByAssetID observed); guards varied (app / reward whitelisting, missing pair or collector lookup, zero fee, stable-mint vault, "
              "block height 0 time base, negative elapsed time, missing or short net fees, unfunded collector, principal beyond int64); the model state (tracker, record, time base, indices) is "
-             "threaded through the history and diffed after every call; predicates holds_C18_site_* judged on the implementation's records; non-trivial = some call accrued a non-zero amount",
+             "threaded through the history and diffed after every call; predicates holds_C18_site_* judged on the implementation's records; non-trivial = some call accrued a non-zero amount. "
+             "Workload accrual-pair-fee: case = a history of 8-19 steps {later block (0 s .. 2 y), MsgCreate, MsgVaultInterestCalc, MsgDeposit, MsgDraw, AssetKeeper.WasmUpdatePairsVault} through the real "
+             "message router / keeper on a fresh extended pair (initial fee zero in 12%, app not whitelisted for vault interest in 8%); 40% of the cases follow the skeleton 'two vaults, fee switched off, "
+             "a vault touched or not, fee switched on again, interest calculated in the same / a later block', case 0 and 10% replay the witness of C18-F2, the rest is random; fee updates by the fee in force: "
+             "zero -> 80% non-zero / 20% zero; non-zero -> 40% zero / 40% another non-zero / 20% the same fee (distribution incl. 'some vault carries its own stamp' printed as setfee:* histograms); "
+             "the pair's (fee, stamps) and every vault's (AmountOut, InterestAccumulated, tracker, stamps) are diffed after every step; holds_C18_pair_charge judges what the IMPLEMENTATION charged each "
+             "vault in each step against the real CalculationOfRewards at the fee in force before the step over the time since the later of the vault's last settlement and the start of that fee "
+             "(zero when that fee is zero or no time has passed); non-trivial = some step accrued a non-zero amount",
         modelled=["math.Pow: its leading special cases (y == 0 || x == 1 -> 1, y == 1 -> x; src/math/pow.go) are modelled exactly (Model/Pow.v go_pow) and compared with every observation; "
                   "otherwise its observed result is an input of the model. The only assumed property is monotonicity on the operand box [1,11] x [0,100] (PowMonoBox, the explicit premise of "
                   "c18_cmp_nonneg / c18_cmp_monotone), tested on every pair of neighbouring observations; c18_cmp_zero_time / c18_cmp_zero_rate need no hypothesis. "
                   "H4 (quasi-multiplicativity over consecutive intervals, pow x y1 * pow x y2 <= (1 + en/2^53) * pow x y12, the premise of c18_cmp_subadditive) is measured on every interval "
                   "triple (en reported; en > 4096 is reported as a broken correspondence) and the proved bound is judged on the three implementation results with that en.",
                   "strconv.ParseFloat / FormatFloat as exact round-to-nearest-even (Lib/F64.v), validated bit-for-bit by the correspondence run"],
-        assumptions=["accrual sites: the bank transfers, cToken mint and statistics of IterateLends and the reserve/buy-back bookkeeping are C08's subject and are not modelled here (the harness funds the accounts so that they succeed); "
+        assumptions=["pair fee histories (c18_pair_*): the sweep VaultIterateRewards stops at the first error of CalculationOfRewards (non-finite float result; negative elapsed time cannot occur) and "
+                     "WasmUpdatePairsVault goes on to stamp the pair - histories with such an interrupted sweep are excluded by an explicit premise (ps_intr = false), not reproduced; block height >= 1; "
+                     "the binding's AppID is the pair's app; closing / liquidating vaults and MsgRepay / MsgWithdraw (same CalculateVaultInterest + stamp shape as MsgDeposit) are not in the op set",
+                     "accrual sites: the bank transfers, cToken mint and statistics of IterateLends and the reserve/buy-back bookkeeping are C08's subject and are not modelled here (the harness funds the accounts so that they succeed); "
                      "collector.LockerIterateRewards (the loop copy of the locker site) is not driven",
                      "principal 0..2^63-1, rates >= 0, global index > 0 (a zero index makes Quo panic; the model returns Panic too)",
                      "rate-model parameters are those accepted by AssetRatesParams.Validate (model: Rates.rates_valid, compared with the real Validate on every R case); "
